@@ -49,7 +49,7 @@ type Result struct {
 
 // Profiles per property for the seq engine.
 var Profiles = map[string]*Profile{
-	"C01":  {Name: "C01", MaxOps: 30, UniqueMax: 1, IndexPct: 20, CasePct: 10},
+	"C01":  {Name: "C01", MaxOps: 30, UniqueMax: 1, IndexPct: 20, CasePct: 10, W: map[string]int{"create": 7}},
 	"C02":  {Name: "C02", MaxOps: 25, UniqueMax: 1, IndexPct: 45, CasePct: 10, W: map[string]int{"sweep": 18, "sdel": 10, "reads": 2}},
 	"C03":  {Name: "C03", MaxOps: 30, UniqueMin: 1, UniqueMax: 3, IndexPct: 10, CasePct: 25, W: map[string]int{"update": 40, "del": 14, "reopen": 8, "sweep": 2, "many": 8}},
 	"C04":  {Name: "C04", MaxOps: 25, UniqueMax: 2, IndexPct: 40, CasePct: 15, W: map[string]int{"reopen": 16, "abandon": 8}},
